@@ -451,7 +451,7 @@ def kani_playback(harness, package=None, flags=None, repo=None, timeout=600):
     return {"test": txt, "replayed": replayed, "out_tail": both[-3000:]}
 
 
-def witness_search(pid, repo=None, timeout=600):
+def witness_search(pid, repo=None, timeout=300):
     """Verus gives no model: run the real public entry points of the CURRENT tree natively against executable
     references over a generated input family (witness/witness.rs). Returns a replayable description or None.
     Never an alarm by itself — only attaches an input to a violation the verifier already reported."""
